@@ -5070,9 +5070,11 @@ class TensorDictBase(MutableMapping):
             nonlocal start
             n = value.element_size() * value.numel()
             if need_padding:
-                pad = n % 8
+                # every leaf starts at a multiple of 16 bytes, the largest element size
+                # (complex128): the slices of the storage can be viewed with any dtype
+                pad = n % 16
                 if pad != 0:
-                    pad = 8 - pad
+                    pad = 16 - pad
             else:
                 pad = 0
             flat_size.append(sum([n, pad]))
@@ -5466,12 +5468,12 @@ class TensorDictBase(MutableMapping):
 
             def _view_and_pad(tensor):
                 result = tensor.view(-1).view(torch.uint8)
-                # result must always have a multiple of 8 elements
+                # result must always have a multiple of 16 elements
                 pad = 0
                 if need_padding:
-                    pad = result.numel() % 8
+                    pad = result.numel() % 16
                     if pad != 0:
-                        result = torch.cat([result, result.new_zeros(8 - pad)])
+                        result = torch.cat([result, result.new_zeros(16 - pad)])
                 return result, pad
 
             items = []
